@@ -73,8 +73,8 @@ PROPS = {
              [SIM_ALLOC, SIM_IN], probes=["failed_cleanly", "completed_despite_failure"], hang_s=120),
 
     "C01": P("asan", "fault_enumeration", (2400, 30), (300000, 480),
-             "the document store is filled with texts serialised from random model values (all token kinds, escapes, surrogates, 63-character numbers, BOM, whitespace), token soups, raw blocks and 998..100000-deep nestings; sampled storage faults (bit flip, byte replace, lost/duplicated span, inserted structural byte, splice, zero byte, grammar-biased edits such as bare \\u runs, ...) are applied; in a third of the runs the short-write fault is then ENUMERATED: every truncation point n in [0,|t|] (documents up to 4000 bytes), each once as exact-length unterminated buffer and once zero-terminated; the other runs only sample faults. Reads go through 1-3 of the four entry points (both require_null_terminated values, with/without return_parse_end, both allocator configurations). The bytes end flush against an inaccessible page and are read-only during the call. Oracles: no access outside the declared bytes, input unchanged, call returns, result NULL or a tree that passes a bounded structural walk, prints in both formats and deletes; ledger live set afterwards equals the one before. Distinct by (byte class before the cut, byte class after the cut, entry point, terminated?) for non-empty documents.",
-             "(byte class left of the cut, byte class right of the cut, entry point, terminated, truncated?) tuples",
+             "the document store is filled with texts serialised from random model values (all token kinds, escapes, surrogates, 63-character numbers, BOM, whitespace), token soups, raw blocks and 998..100000-deep nestings; sampled storage faults (bit flip, byte replace, lost/duplicated span, inserted structural byte, splice, zero byte, grammar-biased edits such as bare \\u runs, ...) are applied; in a third of the runs the short-write fault is then ENUMERATED: every truncation point n in [0,|t|] (documents up to 4000 bytes), each once as exact-length unterminated buffer and once zero-terminated; the other runs only sample faults. Reads go through 1-3 of the four entry points (both require_null_terminated values, with/without return_parse_end, both allocator configurations). The bytes end flush against an inaccessible page and are read-only during the call. Oracles: no access outside the declared bytes, input unchanged, call returns, result NULL or a tree that passes a bounded structural walk, prints in both formats and deletes; ledger live set afterwards equals the one before. Distinct by (byte class before the cut, byte class after the cut, entry point, terminated?, last sampled fault kind, outcome) for non-empty documents.",
+             "(byte class left of the cut, byte class right of the cut, entry point, terminated, truncated?, last fault kind, NULL/tree) tuples",
              [SIM_ALLOC, SIM_IN], probes=["deep_document", "long_number_token"], hang_s=120),
     "C03": P("asan", "exploration", (80000, 25), (8000000, 420),
              "stored valid documents, token soups and deep nestings are hit by single-edit storage faults biased to each grammar rule the statement names (bracket swap/drop, separator drop/duplicate, quote drop, key replaced by number/literal/word, truncation, literal misspelling and case change, digits removed, dangling point/exponent, unknown escape, \\u with 0-3 or non-hex digits, lone/reversed surrogates, nesting 999..1100 and 1e5, trailing garbage); an independent dialect recogniser classifies the faulted bytes as outside / inside / unspecified (demanding only what every reading of the statement demands); OUTSIDE => all entry points return NULL and the ledger is unchanged by the call. Distinct by (fault kind, reason the recogniser rejects, byte classes around the position where it stops, entry point, require_null_terminated).",
